@@ -95,3 +95,29 @@ PROPS.update({
         "assumptions": SM2_ASSUME + ["affine conversion of the point at infinity is unspecified and excluded"],
     },
 })
+
+SM9_ASSUME = BASE_ASSUME + [
+    "reference SM9 = textbook pairing over Fp[w]/(w^12+2) and affine G1/G2 in BigUint, anchored per run by the GM/T 0044.5 Annex values (Ppub-s, g = e(P1,Ppub-s), (h,S), C1/C3/C2, SK)",
+    "random scalars of the library are observed / overridden through the cfg(gm_rs_verif) hook at the RNG byte source",
+]
+
+PROPS.update({
+    "C09": {
+        "level": "exploration",
+        "profiles": BOTH,
+        "rule": "extract_key / sign / verify_sign over edge and random master keys, identities of 0..64 bytes, messages of 0..1024 bytes: (h,S) must equal the reference's for the scalar that was drawn or injected; library verifier accepts; reference-made signatures accepted; per forged sample all 256+512 bit flips of (h,S), boundary h, substituted / off-curve / infinite S, changed message/identity/master key must give Err (reference consulted only when the library accepts). Distinct by (h, S, id, msg, ks)",
+        "assumptions": SM9_ASSUME,
+    },
+    "C10": {
+        "level": "exploration",
+        "profiles": BOTH,
+        "rule": "encrypt / extract_key / decrypt for every message length 1..=255: C1||C3||C2 must equal the reference's for the drawn/injected r (MAC = SM3(C2||K2)); round trip; reference-made ciphertexts decrypt; per tamper sample every bit flip and truncation, changed identity, crafted C1 ((0,0), off-curve, illegal PC byte) with a tag computed from the library's own pairing on that input, substituted C1, zeroed C3: Ok only for the untouched ciphertext. Distinct by ciphertext bytes",
+        "assumptions": SM9_ASSUME + ["non-canonical encodings x+p of a valid C1 are not crafted with a matching tag (an attacker cannot compute w; plain substitutions are covered by the bit flips)"],
+    },
+    "C17": {
+        "level": "exploration",
+        "profiles": BOTH,
+        "rule": "three-step histories exch_step_1a -> 1b -> 2a with injected rA, rB: R_A, R_B, SK_B, SK_A must equal the reference's for what each side saw; honest runs end with equal keys of klen bytes; off-curve R is rejected by the receiving side; substituted / negated / on-curve-bit-flipped R makes the keys differ. Distinct by (ke, ids, klen, rA, rB, tamper kind)",
+        "assumptions": SM9_ASSUME + ["tampering verdicts use klen >= 8 so that a chance collision has probability <= 2^-64"],
+    },
+})
